@@ -53,9 +53,13 @@ def interact(a, b):
 
 
 LITERALS = {"1"}
+# names met while evaluating the current formula: a (quoted) column called `1z` is a name although it starts with a digit
+_NAME_ATOMS = set()
 
 
 def is_literal(f):
+    if f in _NAME_ATOMS:
+        return False
     return f == "1" or f[:1].isdigit() or f[:1] == "."
 
 
@@ -71,6 +75,8 @@ def ev(node, env):
     """Evaluate an expression node to a term list. env: {'dot': [names]}"""
     k = node[0]
     if k in ("n", "q"):
+        if node[1] != "1":
+            _NAME_ATOMS.add(node[1])
         return [(node[1],)]
     if k in ("c", "p"):
         return [(node[1],)]
@@ -194,6 +200,7 @@ def ev_structured(s, include_intercept=True, available=None, ordered=True):
     Returns JSON shape: ["T", [[factors...], ...]] for a term list, ["P", [...]]
     for tuple parts, {"lhs":..., "rhs":...} for two-sided formulas.
     """
+    _NAME_ATOMS.clear()
     used_lhs = []
     for part in s["lhs"] or []:
         used_lhs += variables_of(part)
